@@ -21,6 +21,9 @@ func authProfile() sim.Profile {
 	for _, k := range []string{"editCand", "candOn", "candOff", "editCandKey", "editCandCommission", "removeOrder", "editMultisig", "createMultisig", "unbond", "moveStake", "send"} {
 		p[k] = 10
 	}
+	for _, k := range []string{"editCoinOwner", "recreateCoin", "recreateToken", "mint", "createCoin", "createToken"} {
+		p[k] = 7
+	}
 	return p
 }
 
@@ -68,6 +71,20 @@ func TestC05(t *testing.T) {
 		removedOrdersBy := map[uint64]string{}
 		unauthorizedAttempts := 0
 		transplants := 0
+		// Reference ownership, kept by the harness from the genesis and the accepted transactions only
+		// (the node's own answers are compared with it, also after restarts): candidate key -> owner /
+		// control address, ticker -> owner.
+		candOwner, candCtrl := map[string]string{}, map[string]string{}
+		for _, c := range h.G.V.Exp.Candidates {
+			candOwner[c.PubKey.String()], candCtrl[c.PubKey.String()] = c.OwnerAddress.String(), c.ControlAddress.String()
+		}
+		tickerOwner := map[string]string{}
+		for _, c := range h.G.V.Exp.Coins {
+			if c.Version == 0 && c.OwnerAddress != nil {
+				tickerOwner[c.Symbol.String()] = c.OwnerAddress.String()
+			}
+		}
+		restarts, tickerTxs := 0, 0
 		var cur struct {
 			ok     bool
 			sender types.Address
@@ -121,8 +138,15 @@ func TestC05(t *testing.T) {
 			}
 			cur.owner, cur.ctrl = map[string]string{}, map[string]string{}
 			for _, c := range h.N.App.CurrentState().Candidates().GetCandidates() {
-				cur.owner[c.PubKey.String()] = c.OwnerAddress.String()
-				cur.ctrl[c.PubKey.String()] = c.ControlAddress.String()
+				k := c.PubKey.String()
+				if o, known := candOwner[k]; known && (o != c.OwnerAddress.String() || candCtrl[k] != c.ControlAddress.String()) {
+					violation(t, "candidate-owner-differs-from-model", h.R, "candidate %s: the node reports owner %s control %s; by the accepted transactions since genesis they are %s / %s", k, c.OwnerAddress.String(), c.ControlAddress.String(), o, candCtrl[k])
+				}
+				cur.owner[k] = c.OwnerAddress.String()
+				cur.ctrl[k] = c.ControlAddress.String()
+				if o, known := candOwner[k]; known {
+					cur.owner[k], cur.ctrl[k] = o, candCtrl[k]
+				}
 			}
 			if m.Perturbed == "" && !cur.auth {
 				unauthorizedAttempts++
@@ -163,6 +187,48 @@ func TestC05(t *testing.T) {
 				return
 			}
 			acceptedBy[cur.sender.String()] = append(acceptedBy[cur.sender.String()], d.Type)
+			// ticker-owner gated transactions, judged against the reference owner
+			{
+				var sym string
+				switch data := d.GetDecodedData().(type) {
+				case *tx.RecreateCoinData:
+					sym = data.Symbol.String()
+				case *tx.RecreateTokenData:
+					sym = data.Symbol.String()
+				case *tx.EditCoinOwnerData:
+					sym = data.Symbol.String()
+				case *tx.MintTokenData:
+					if c, ok := h.G.V.Coins[uint64(data.Coin)]; ok {
+						sym = c.Symbol.String()
+					} else if c := h.N.App.CurrentState().Coins().GetCoin(data.Coin); c != nil {
+						sym = c.Symbol().String()
+					}
+				}
+				if sym != "" {
+					tickerTxs++
+					if o, known := tickerOwner[sym]; !known || o != cur.sender.String() {
+						violation(t, "ticker-tx-by-non-owner", h.R, "%s on ticker %s accepted from %s; by the accepted transactions since genesis the ticker owner is %q", m.Kind, sym, cur.sender.String(), o)
+					}
+				}
+				switch data := d.GetDecodedData().(type) {
+				case *tx.CreateCoinData:
+					tickerOwner[data.Symbol.String()] = cur.sender.String()
+				case *tx.CreateTokenData:
+					tickerOwner[data.Symbol.String()] = cur.sender.String()
+				case *tx.EditCoinOwnerData:
+					tickerOwner[data.Symbol.String()] = data.NewOwner.String()
+				case *tx.DeclareCandidacyData:
+					candOwner[data.PubKey.String()], candCtrl[data.PubKey.String()] = data.Address.String(), cur.sender.String() // declare: owner = data.Address, reward and control = sender
+				case *tx.EditCandidateData:
+					candOwner[data.PubKey.String()], candCtrl[data.PubKey.String()] = data.OwnerAddress.String(), data.ControlAddress.String()
+				case *tx.EditCandidatePublicKeyData:
+					if o, ok := candOwner[data.PubKey.String()]; ok {
+						candOwner[data.NewPubKey.String()], candCtrl[data.NewPubKey.String()] = o, candCtrl[data.PubKey.String()]
+						delete(candOwner, data.PubKey.String())
+						delete(candCtrl, data.PubKey.String())
+					}
+				}
+			}
 			// owner-gated candidate transactions
 			var key string
 			ownerOnly := true
@@ -283,10 +349,17 @@ func TestC05(t *testing.T) {
 		}
 		nb := rapid.IntRange(1, scale(12, 36)).Draw(t, "nBlocks")
 		for i := 0; i < nb; i++ {
+			if i > 0 && sim.U(t, "restart", 6) == 0 {
+				h.N.Restart()
+				restarts++
+				h.R.Steps = append(h.R.Steps, "RESTART")
+			}
 			if !h.R.Block(t) {
 				violation(t, "panic", h.R, "%s", h.R.PanicReport())
 			}
 		}
+		sim.S.LabelN("C05/restarts", restarts)
+		sim.S.LabelN("C05/accepted-ticker-owner-transactions", tickerTxs)
 		sim.S.LabelN("C05/unauthorized-multisig-attempts", unauthorizedAttempts)
 		sim.S.LabelN("C05/signature-transplant-attempts", transplants)
 		sim.S.LabelN("C05/wrong-owner-rejections", h.R.KindsFail["editCand/406"]+h.R.KindsFail["candOn/406"]+h.R.KindsFail["candOff/406"]+h.R.KindsFail["removeOrder/712"]+h.R.KindsFail["mint/206"]+h.R.KindsFail["editCoinOwner/206"])
